@@ -27,7 +27,7 @@ class Inst:
                  tier='quick', pre='', loop_contracts=None, nondet_volatile=False, solvers=('minisat',),
                  timeout=120, unwind=None, extra_cbmc=(), also_enforce=(), note='', kind='proof',
                  replay=None, expect_compile_error=False, opts=None, defines=(), root_pick=None,
-                 canary=True, object_bits=None, globals_init=None):
+                 canary=True, object_bits=None, globals_init=None, extra_replace=()):
         self.name = name
         self.params = params          # C++ parameter list of the snippet
         self.expr = expr              # C++ statement(s) using the operation under contract
@@ -54,6 +54,7 @@ class Inst:
         self.canary = canary
         self.object_bits = object_bits
         self.globals_init = globals_init
+        self.extra_replace = list(extra_replace)   # contract stubs declared in `pre` (libc models), replaced at call sites
 
 
 # ---------------------------------------------------------------------------------------------------------
@@ -352,7 +353,7 @@ class Unit:
     # ---------------------------------------------------------------- verification
     def verify_inst(self, it):
         info = self.emitted[it.name]
-        res = cbmc.verify(info['cfile'], self.dir, 'harness', [info['root']] + list(it.also_enforce), replace=info['leaves'],
+        res = cbmc.verify(info['cfile'], self.dir, 'harness', [info['root']] + list(it.also_enforce), replace=info['leaves'] + list(it.extra_replace),
                           loop_contracts=bool(it.loop_contracts), nondet_volatile=it.nondet_volatile,
                           includes=[os.path.join(VERIF, 'include'), self.dir], solvers=it.solvers, timeout=it.timeout,
                           unwind=it.unwind, extra_cbmc=it.extra_cbmc, object_bits=it.object_bits)
@@ -362,7 +363,7 @@ class Unit:
             cdir = os.path.join(self.dir, 'canary_' + it.name)
             os.makedirs(cdir, exist_ok=True)
             r2 = cbmc.verify(info['cfile'], cdir, 'harness', [info['root']] + list(it.also_enforce),
-                             replace=info['leaves'], loop_contracts=bool(it.loop_contracts), nondet_volatile=it.nondet_volatile,
+                             replace=info['leaves'] + list(it.extra_replace), loop_contracts=bool(it.loop_contracts), nondet_volatile=it.nondet_volatile,
                              includes=[os.path.join(VERIF, 'include'), self.dir], defines=['CANARY'], solvers=it.solvers,
                              timeout=it.timeout, unwind=it.unwind, extra_cbmc=it.extra_cbmc, trace=False,
                              object_bits=it.object_bits)
